@@ -1120,6 +1120,10 @@ def op_empty_column_entry(g, dv, protected):
   if not empties:
     if len(t.user_cols()) >= g.max_cols:
       return None
+    if g.rng.random() < 0.5:
+      # an empty column whose type the user has already chosen
+      return [["AddColumn", t.tableId, g.new_col_id("e"),
+               {"type": g.rng.choice(["Int", "Text", "Numeric", "Bool", "Date"]), "isFormula": True, "formula": ""}]]
     return [["AddColumn", t.tableId, g.new_col_id("e"), {}]]
   c = g.rng.choice(empties)
   v = g.rng.choice([1, 2.5, "x", "12", "", None, True])
@@ -1150,6 +1154,7 @@ class C36(HistoryProfile):
     cfg["weights"] = gen.swarm_weights(rng, self.base_weights(),
                                        keep=("add_table", "add_view", "page_indent"), p_off=0.2)
     cfg["max_tables"] = rng.randint(2, 6)
+    cfg["wild_indent_p"] = rng.choice([0.0, 0.0, 0.2, 0.4])
     return cfg
 
   @staticmethod
@@ -1183,11 +1188,24 @@ class C36(HistoryProfile):
     pre_valid = self._valid([ind for _, ind in pre])
     if not removed:
       return
-    if not pre_valid:
-      sim.count("probe.pre_tree_invalid_skipped")
-      return
     post_inds = [ind for _, ind in post]
     pre_map = dict(pre)
+    if not pre_valid:
+      # "For any list of pages": a list that was no valid tree to begin with still comes out as
+      # one, and no page goes deeper. (Which pages may change is only defined for valid trees.)
+      mixed = any(a[1] == "_grist_Pages" and a[0] not in ("RemoveRecord", "BulkRemoveRecord")
+                  for a in out.ev.get("a", []) if len(a) > 1) or set(post_ids) - set(pre_ids)
+      if mixed:
+        return
+      if not self._valid(post_inds):
+        raise vio(sim, "page-tree-invalid", "after removing pages %s from the (invalid) list %s: %s" % (
+          sorted(removed), pre, post))
+      for r, ind in post:
+        if ind > pre_map[r]:
+          raise vio(sim, "page-deeper", "page %s went from indentation %s to %s" % (r, pre_map[r], ind))
+      sim.count("oracle.page_tree_from_invalid")
+      sim.count("oracle.nontrivial")
+      return
     added = set(post_ids) - set(pre_ids)
     if added or any(a[0] in ("UpdateRecord", "BulkUpdateRecord") and a[1] == "_grist_Pages"
                     for a in out.ev.get("a", [])) or any(
@@ -1270,6 +1288,16 @@ class C41(HistoryProfile):
           pick = g.rng.sample(vals, min(len(vals), g.rng.randint(0, 2)))
           pick += g.rng.sample([0, 1, "a", "", None, True, 2.5, ["L", "a"], ["L"], 1.0, False], g.rng.randint(0, 2))
           q[c] = pick
+        if g.rng.random() < 0.35:
+          # by row id, the way records are fetched for a list of references: in any order, with
+          # repeats and with ids that do not exist
+          rows = list(td[2])
+          ids = [g.rng.choice(rows) for _ in range(g.rng.randint(1, 4))] if rows else []
+          ids += g.rng.sample([0, 999, -1, "1", None, 1.0], g.rng.randint(0, 2))
+          g.rng.shuffle(ids)
+          q["id"] = ids
+          if g.rng.random() < 0.5:
+            q = {"id": ids}
         return {"k": "read", "call": "fetch_table", "args": [t.tableId, g.rng.random() < 0.7, q]}
     return super(C41, self).next_event(sim, g, cfg, st, i)
 
@@ -1309,7 +1337,7 @@ class C41(HistoryProfile):
         may.append(r)
     got = out.reply
     got_rows = list(got[2])
-    if got_rows != sorted(got_rows):
+    if got_rows != sorted(set(got_rows)):
       raise vio(sim, "query-order", "fetch_table(%s) rows not in row id order: %s" % (tid, got_rows))
     if not (set(must) <= set(got_rows) <= set(must) | set(may)):
       raise vio(sim, "query-rows", "fetch_table(%s, query=%s): rows %s; must contain %s, may contain %s" % (
